@@ -3296,6 +3296,15 @@ impl<'a> Visitor<'a, '_, Error> for JSONValidator<'a> {
               n
             )),
           },
+          // not an integer at all: different from the literal, which is all .ne asks
+          None
+            if matches!(
+              self.state.ctrl,
+              Some(ControlOperator::NE) | Some(ControlOperator::DEFAULT)
+            ) =>
+          {
+            None
+          }
           None => Some(format!("expected integer value {}, got {}", v, n)),
         },
         _ => Some(format!("expected value {}, got {}", v, self.json)),
@@ -3348,6 +3357,15 @@ impl<'a> Visitor<'a, '_, Error> for JSONValidator<'a> {
               n
             )),
           },
+          // not an integer at all: different from the literal, which is all .ne asks
+          None
+            if matches!(
+              self.state.ctrl,
+              Some(ControlOperator::NE) | Some(ControlOperator::DEFAULT)
+            ) =>
+          {
+            None
+          }
           None => Some(format!("expected integer value {}, got {}", v, n)),
         },
         Value::String(s) => match &self.state.ctrl {
